@@ -51,7 +51,7 @@ func simDebugMain(args []string) int {
 		}
 	}
 	if vkArg(args, "fair", "") != "" {
-		rounds, problem := fairContinuation(s, vkArgInt(args, "rounds", 40))
+		rounds, problem := fairContinuation(s, vkArgInt(args, "rounds", 40), vkArgInt(args, "exclude", -1))
 		fmt.Println(strings.Join(s.w.trace, "\n"))
 		fmt.Printf("fair continuation: rounds=%d problem=%q\n", rounds, problem)
 		fmt.Println(s.w.canon(s.cnt))
